@@ -19,6 +19,7 @@ Definition table_ok (f : fmt) (rows : list row) : Prop :=
   | Vcf => rect rows /\ cells_small (map (vcf_shift 1) rows)
   | VcfU => rows = []
   | VcfL => True
+  | DelimL => True
   | Fasta w => 1 <= w /\ Forall (fun r => exists n s, r = [n; s] /\ fld_small n /\ fld_small s /\ print_fld s <> []) rows
   | Fastq => Forall (fun r => exists n s q, r = [n; s; q] /\ fld_small n /\ fld_small s /\ fld_small q) rows
   end.
@@ -50,8 +51,9 @@ Proof. destruct r as [|c [|[s|p|l|q|t a b] rest]]; reflexivity. Qed.
 Theorem from_data_canonical f rows : rows <> [] -> table_ok f rows ->
   from_data f rows = (0, serialise f rows).
 Proof.
-  intros Hne Hok. destruct f as [| | | |w|]; cbn [table_ok] in Hok.
+  intros Hne Hok. destruct f as [| | | | |w|]; cbn [table_ok] in Hok.
   - (* Delim *) destruct Hok as [Hr Hs]. cbn [from_data]. rewrite delim_canonical by assumption. reflexivity.
+  - (* DelimL *) reflexivity.
   - (* Vcf *) destruct Hok as [[n [Hn Hr]] Hs]. cbn [from_data]. rewrite delim_canonical.
     + unfold serialise. rewrite map_map. reflexivity.
     + destruct rows; [congruence|discriminate].
